@@ -11,6 +11,8 @@
 import enum
 import gc
 import hashlib
+import inspect
+import itertools
 import json
 import os
 import pathlib
@@ -83,11 +85,9 @@ def _atom(o, index):
     return f"{type(o).__name__}:{o!r}"
 
 
-def fingerprint(root):
-    sys.setrecursionlimit(max(sys.getrecursionlimit(), 10000))
+def _index_graph(root):
     index = {}
     order = []
-    wrappers = {}          # (id(parent), label) -> _IdSet  (keep identity stable between passes)
     stack = [root]
     # pass 1: canonical indices in DFS preorder (explicit stack, children in reverse)
     while stack:
@@ -102,6 +102,14 @@ def fingerprint(root):
         for _, c in reversed(ch):
             if _children(c) is not None and id(c) not in index:
                 stack.append(c)
+    return index, order
+
+
+def fingerprint(root, with_queries=True):
+    """(fingerprint, number of objects). The fingerprint is the hash of the structure of the
+    object graph, followed (with_queries) by the hash of the answers to every public query."""
+    sys.setrecursionlimit(max(sys.getrecursionlimit(), 10000))
+    index, order = _index_graph(root)
     # pass 2: one flat record per object
     h = hashlib.sha256()
     dangling = 0
@@ -115,7 +123,160 @@ def fingerprint(root):
                 h.update(f"{label}={a};".encode("utf-8", "surrogatepass"))
             else:
                 h.update(f"{label}=#{index[id(c)]};".encode())
-    return h.hexdigest()[:24] + (f"!dangling{dangling}" if dangling else ""), len(order)
+    fp = h.hexdigest()[:24] + (f"!dangling{dangling}" if dangling else "")
+    if with_queries:
+        try:
+            qh, nq = queries(root, index, order)
+        except Exception as e:  # the reflection itself failed: visible, never silently equal
+            qh, nq = f"QUERY-ERROR-{type(e).__name__}:{e}"[:80], 0
+        fp = f"{fp}.q{qh}"
+        LAST_QUERY_COUNT[0] = nq
+    return fp, len(order)
+
+
+LAST_QUERY_COUNT = [0]
+IR_PREFIX = "aas_core_codegen.intermediate"
+MAX_CALLS = 60000
+
+
+def _canon(v, index, depth=0):
+    """Canonical text of a query answer: objects of the graph by canonical index, fresh
+    containers/objects structurally (bounded depth)."""
+    if isinstance(v, _IdSet):
+        return _atom(v, index)
+    if isinstance(v, int) and not isinstance(v, bool) and v > 2 ** 32 and v in index:
+        return f"id#{index[v]}"          # an id() of an object of the graph
+    ch = _children(v)
+    if ch is None:
+        return _atom(v, index)
+    if id(v) in index and depth > 0:
+        return f"#{index[id(v)]}"
+    if isinstance(v, (types.GeneratorType, map, filter, zip)):
+        v = list(v)
+        ch = _children(v)
+    if depth > 4:
+        return f"<{type(v).__name__}>"
+    if isinstance(v, (set, frozenset)):
+        return "{" + ",".join(sorted(_canon(x, index, depth + 1) for x in v)) + "}"
+    tag = type(v).__name__
+    return tag + "(" + ",".join(f"{k}={_canon(c, index, depth + 1)}" for k, c in ch) + ")"
+
+
+def _candidates(ann, pool, names):
+    """Arguments to try for a parameter with annotation `ann`."""
+    import typing
+    if ann is inspect.Parameter.empty or ann is typing.Any:
+        return None
+    origin = typing.get_origin(ann)
+    if origin is typing.Union:
+        out = []
+        for a in typing.get_args(ann):
+            if a is type(None):
+                out.append(None)
+            else:
+                c = _candidates(a, pool, names)
+                if c is None:
+                    return None
+                out += c
+        return out
+    if isinstance(ann, type):
+        if issubclass(ann, str):
+            out = []
+            for n in names:
+                try:
+                    out.append(ann(n))
+                except BaseException:  # noqa  (e.g. Identifier precondition)
+                    pass
+            return out
+        if ann in (int, float, bool, bytes):
+            return None
+        return [o for o in pool if isinstance(o, ann)]
+    return None
+
+
+def queries(root, index, order):
+    """Ask every public question: for every object of the intermediate representation, every
+    public property, attribute and method (enumerated by reflection; methods are called with
+    every combination of graph objects / names fitting their parameter annotations), and the
+    public module-level functions of intermediate._types over IR objects. Answers are
+    canonicalised by graph index so that a fresh and an unpickled table can be compared."""
+    import typing
+    h = hashlib.sha256()
+    pool = [o for o, _ in order if type(o).__module__.startswith(IR_PREFIX)]
+    names = sorted({str(getattr(o, "name")) for o in pool if isinstance(getattr(o, "name", None), str)})
+    names.append("No_such_name_xyz")
+    calls = [0]
+
+    def ask(label, fn, sig_owner, drop_first):
+        try:
+            hints = typing.get_type_hints(sig_owner)
+        except BaseException:  # noqa
+            hints = {}
+        try:
+            params = [p for p in inspect.signature(sig_owner).parameters.values()]
+        except (TypeError, ValueError):
+            return
+        if drop_first:
+            params = params[1:]
+        required = [p for p in params if p.default is inspect.Parameter.empty
+                    and p.kind in (p.POSITIONAL_ONLY, p.POSITIONAL_OR_KEYWORD, p.KEYWORD_ONLY)]
+        if any(p.kind in (p.VAR_POSITIONAL, p.VAR_KEYWORD) for p in params) or len(required) > 2:
+            return
+        cands = []
+        for p in required:
+            c = _candidates(hints.get(p.name, p.annotation), pool, names)
+            if c is None:
+                return
+            cands.append((p.name, c))
+        total = 1
+        for _, c in cands:
+            total *= max(1, len(c))
+        if total > 4000 or calls[0] + total > MAX_CALLS:
+            h.update(f"{label}:SKIPPED;".encode())
+            return
+        for combo in itertools.product(*[c for _, c in cands]):
+            calls[0] += 1
+            kw = {n: a for (n, _), a in zip(cands, combo)}
+            try:
+                ans = _canon(fn(**kw), index)
+            except BaseException as e:  # noqa
+                ans = f"raises:{type(e).__name__}"
+            args = ",".join(_canon(a, index, 1) for a in combo)
+            h.update(f"{label}({args})={ans};".encode("utf-8", "surrogatepass"))
+
+    for o in pool:
+        cls = type(o)
+        oi = index[id(o)]
+        for name in sorted(set(dir(cls)) | set(getattr(o, "__dict__", {}))):
+            if name.startswith("_"):
+                continue
+            static = inspect.getattr_static(cls, name, None)
+            label = f"@{oi}.{name}"
+            if isinstance(static, (staticmethod, classmethod)):
+                continue
+            if isinstance(static, types.FunctionType):
+                ask(label, getattr(o, name), static, True)
+                continue
+            try:
+                v = getattr(o, name)
+            except BaseException as e:  # noqa
+                h.update(f"{label}=raises:{type(e).__name__};".encode())
+                continue
+            if isinstance(v, (set, frozenset)) and "id_set" in name and all(isinstance(x, int) for x in v):
+                v = _IdSet(v)
+            calls[0] += 1
+            h.update(f"{label}={_canon(v, index, 1)};".encode("utf-8", "surrogatepass"))
+    try:
+        import aas_core_codegen.intermediate._types as _t
+        for name in sorted(vars(_t)):
+            fn = vars(_t)[name]
+            if (name.startswith("_") or not isinstance(fn, types.FunctionType)
+                    or getattr(fn, "__module__", "") != _t.__name__):
+                continue
+            ask(f"fn.{name}", fn, fn, False)
+    except ImportError:
+        pass
+    return h.hexdigest()[:16], calls[0]
 
 
 AUDIT = {"open", "os.mkdir", "os.rename", "os.remove", "os.rmdir", "os.truncate", "os.link",
@@ -144,6 +305,44 @@ def install_audit(events):
             except Exception as e:  # never let the observer change the run
                 events.append(["hook-error", repr(e)])
     sys.addaudithook(hook)
+
+
+_SINK = {"events": None, "installed": False}
+
+
+def audit_to(events):
+    """One process-wide audit hook whose sink can be switched (hooks cannot be removed):
+    events are appended to `events` until audit_to(None)."""
+    if not _SINK["installed"]:
+        class _L(list):
+            def append(self, x):
+                if _SINK["events"] is not None:
+                    _SINK["events"].append(x)
+        install_audit(_L())
+        _SINK["installed"] = True
+    _SINK["events"] = events
+
+
+def run_inproc(fn, tmpdir):
+    """Run fn() in this process as if it were a fresh one w.r.t. the temp directory: TMPDIR
+    set, tempfile's cached directory forgotten (so gettempdir() probes again), audit sink
+    fresh. Returns fn()'s value with the events recorded while it ran."""
+    old = os.environ.get("TMPDIR")
+    os.environ["TMPDIR"] = str(tmpdir)
+    tempfile.tempdir = None
+    events = []
+    audit_to(events)
+    try:
+        data = fn()
+    finally:
+        audit_to(None)
+        tempfile.tempdir = None
+        if old is None:
+            os.environ.pop("TMPDIR", None)
+        else:
+            os.environ["TMPDIR"] = old
+    data["events"] = events
+    return {"exit": 0, "data": data}
 
 
 def run_child(fn, tmpdir=None, timeout=300):
@@ -189,11 +388,14 @@ def result_of(call):
     try:
         res, err = call()
     except BaseException as e:  # noqa
+        audit_to(None) if _SINK["installed"] else None
         return {"class": "exc", "type": type(e).__name__, "msg": str(e)[:300]}
+    if _SINK["installed"]:
+        audit_to(None)       # the fingerprinting below is the observer, not the run
     if err is not None:
         return {"class": "err", "msg": err}
     fp, n = fingerprint(res)
-    return {"class": "ok", "fp": fp, "objects": n}
+    return {"class": "ok", "fp": fp, "objects": n, "queries": LAST_QUERY_COUNT[0]}
 
 
 def list_tmp(tmpdir):
